@@ -26,7 +26,8 @@ def load_partdesc(partdesc: bytes):
     ivfc = IVFC.from_bytes(partdesc[difi.ivfc_offset:difi.ivfc_offset + difi.ivfc_size])
     dpfs = DPFS.from_bytes(partdesc[difi.dpfs_offset:difi.dpfs_offset + difi.dpfs_size])
     base_master_hash = partdesc[difi.part_hash_offset:difi.part_hash_offset + difi.part_hash_size]
-    master_hashes: List[bytes] = [base_master_hash[x:x + 0x20] for x in range(0, difi.part_hash_size, 0x20)]
+    # the size field is 64 bits wide; only the hashes that are really there are listed
+    master_hashes: List[bytes] = [base_master_hash[x:x + 0x20] for x in range(0, len(base_master_hash), 0x20)]
     return difi, ivfc, dpfs, master_hashes
 
 
